@@ -60,6 +60,8 @@ def r_stmt(s, ind=""):
         return ind + r_expr(s["e"]) + ";"
     if k in ("let", "const"):
         return "%s%s %s = %s;" % (ind, k, s["n"], r_expr(s["e"]))
+    if k == "lett":
+        return "%slet %s: %s%s;" % (ind, s["n"], s["ty"], "" if s["e"]["k"] == "none" else " = " + r_expr(s["e"]))
     if k == "asg":
         return "%s%s = %s;" % (ind, s["n"], r_expr(s["e"]))
     if k == "asgsub":
